@@ -48,8 +48,10 @@ def _indices(prop, count):
     if prop == "C13":
         from .checks import c13
 
-        base = c13.chain_count("quick")
-        return list(range(0, count // 2)) + list(range(base, base + count - count // 2))
+        base = c13.HISTORIES["quick"]
+        last = base + c13.chain_count("quick") - 1
+        # histories, dirty chains (served first after the histories) and plain chains
+        return list(range(0, count // 2)) + list(range(base, base + count // 4 + 1)) + list(range(last - count // 4, last + 1))
     return list(range(count))
 
 
